@@ -221,6 +221,36 @@ def _flags(cond):
     return re.findall(r"\b(has_[A-Za-z0-9_]+)\b", cond)
 
 
+def _eval_tree(t, params):
+    """Evaluate a canonical expression tree over integer parameters {index: value}."""
+    k = t[0]
+    if k == "int":
+        return t[1]
+    if k == "param":
+        if t[1] in params:
+            return params[t[1]]
+        raise ValueError("free parameter")
+    if k == "cast":
+        return _eval_tree(t[2], params)
+    if k == "un":
+        v = _eval_tree(t[2], params)
+        return {"!": lambda x: int(not x), "-": lambda x: -x, "~": lambda x: ~x, "+": lambda x: x}[t[1]](v)
+    if k == "bin":
+        op = t[1]
+        if op == "&&":
+            return int(bool(_eval_tree(t[2], params)) and bool(_eval_tree(t[3], params)))
+        if op == "||":
+            return int(bool(_eval_tree(t[2], params)) or bool(_eval_tree(t[3], params)))
+        a, b = _eval_tree(t[2], params), _eval_tree(t[3], params)
+        import operator as o
+        tab = {"<": o.lt, "<=": o.le, ">": o.gt, ">=": o.ge, "==": o.eq, "!=": o.ne, "+": o.add, "-": o.sub,
+               "*": o.mul, "&": o.and_, "|": o.or_, "^": o.xor, "<<": o.lshift, ">>": o.rshift}
+        if op not in tab:
+            raise ValueError(op)
+        return int(tab[op](a, b))
+    raise ValueError(k)
+
+
 def balance(ctx, fn, inc, dec, rule, key_prefix):
     """Every path entry -> normal exit has as many `dec` calls as `inc` calls (depth dataflow)."""
     cfg = fn.cfg
@@ -540,10 +570,13 @@ def _forms(ctx):
     for n in f.body.walk():
         if n.k == "IfStmt":
             t = _nocast(cz([x for x in n.c if x is not None][0]))
-            if t == ("bin", "<", ("param", 2, "int32_t"), ("int", 15)) or t == ("bin", "<=", ("param", 2, "int32_t"), ("int", 14)):
-                okl = True
-            elif t[0] == "bin" and t[1] in ("<", "<=") and t[2] == ("param", 2, "int32_t"):
-                okl = False
+            # the condition is evaluated for every count -4..64: short form exactly for 0..14
+            try:
+                vals = {c: bool(_eval_tree(t, {2: c})) for c in range(-4, 65)}
+            except ValueError:
+                continue
+            okl = all(vals[c] for c in range(0, 15)) and not any(vals[c] for c in range(15, 65))
+            break
     key = "list-short-form|%s:thrift_write_list_begin" % TE
     if okl is None:
         ctx.inconclusive("R5.forms", key, P.where(f.body), "list header short/long decision not recognised")
